@@ -339,11 +339,18 @@ Qed.
 Definition delivered : list report :=
   if negb (dry c) && qcode_eqb (qcode p) QOK then reports p else [].
 
-Theorem poll_reach s : Inv g s -> valid_pin s p = true ->
-  psteps c g p (conf0 s p) (fst (poll c g s p), [], [], 
-                            if qcode_eqb (qcode p) QERROR && negb (dry c) then [] else delivered).
+(** the state after the optional cancel_study and the status query of the poll *)
+Definition poll_mid (s : st) : st :=
+  let s0 := poll_start s p in
+  let s1 := if cancel_req p then cancel_study_gen s0 else s0 in
+  if negb (dry c) then emit (ECheck (map (lastjob s1) (inprog s1))) s1 else s1.
+
+Theorem poll_reach_mid s : Inv g s -> valid_pin s p = true ->
+  psteps c g p (conf0 s p) (poll_mid s, [], [], []) /\
+  psteps c g p (poll_mid s, [], [], [])
+               (fst (poll c g s p), [], [], if qcode_eqb (qcode p) QERROR && negb (dry c) then [] else delivered).
 Proof.
-  intros I V. apply valid_pin_spec in V. destruct V as [Vn Vi].
+  intros I V. apply valid_pin_spec in V. destruct V as [Vn Vi]. unfold poll_mid.
   assert (Hseq : forall x, In x (seq 0 (length g)) -> x < length g) by (intros x Hx; apply In_seq_lt; exact Hx).
   unfold poll, conf0. fold (poll_start s p).
   set (s0 := poll_start s p).
@@ -374,7 +381,7 @@ Proof.
     destruct (reach_stage (seq 0 (length g)) s2 [] I2 Hseq) as [R3 I3].
     set (s3 := fold_left (stage_node_gen g) (seq 0 (length g)) s2) in *.
     destruct (reach_launch (available_gen c s3) s3 [] I3 (CrS s2 Cr2)) as [R4 I4].
-    eapply psteps_trans; [exact R2|]. eapply psteps_trans; [exact R3|exact R4].
+    split; [exact R2|]. eapply psteps_trans; [exact R3|exact R4].
   - rewrite andb_true_r. destruct (qcode p) eqn:Q; cbn [qcode_eqb fst].
     + (* OK *)
       unfold dispatch_gen.
@@ -396,14 +403,19 @@ Proof.
         destruct (mcl_frame ca' (mark_failed_list cl' s')) as (_ & _ & _ & _ & _ & N6 & _).
         rewrite N6, M6, EcF. auto. }
       destruct (reach_launch (available_gen c s4) s4 (reports p) I3 (CrS s3 Cr3)) as [R4 I4].
-      eapply psteps_trans; [exact R2|]. eapply psteps_trans; [exact RF|]. eapply psteps_trans; [exact RS|].
+      split; [exact R2|]. eapply psteps_trans; [exact RF|]. eapply psteps_trans; [exact RS|].
       eapply psteps_trans; [exact RC|]. eapply psteps_trans; [exact R3|exact R4].
     + (* NOJOBS *)
       destruct (reach_stage (seq 0 (length g)) s2 [] I2 Hseq) as [R3 I3].
       set (s3 := fold_left (stage_node_gen g) (seq 0 (length g)) s2) in *.
       destruct (reach_launch (available_gen c s3) s3 [] I3 (CrS s2 Cr2)) as [R4 I4].
-      eapply psteps_trans; [exact R2|]. eapply psteps_trans; [exact R3|exact R4].
+      split; [exact R2|]. eapply psteps_trans; [exact R3|exact R4].
     + (* ERROR *)
-      exact R2.
+      split; [exact R2|constructor].
 Qed.
+
+Theorem poll_reach s : Inv g s -> valid_pin s p = true ->
+  psteps c g p (conf0 s p) (fst (poll c g s p), [], [], 
+                            if qcode_eqb (qcode p) QERROR && negb (dry c) then [] else delivered).
+Proof. intros I V. destruct (poll_reach_mid s I V) as [A B]. eapply psteps_trans; eauto. Qed.
 End Reach.
